@@ -1,173 +1,936 @@
-(* The composite world: sinks (queues, NATs, probes, lossy hops, socket
-   forwarders), packet forwarding (src/simulator.cpp forward_packet), and the
-   interpreter of script operations.  One instance of the kernel's [exec]. *)
+(* Behaviour of the composite world: TCP sockets and acceptors
+   (src/tcp_socket.cpp, src/acceptor.cpp), UDP sockets (src/udp_socket.cpp),
+   NAT (src/nat.cpp), packet forwarding (src/simulator.cpp), connection set-up
+   (src/simulation.cpp internal_connect), resolvers (src/resolver.cpp) and the
+   interpreter of script operations.  One instance of the kernel's [exec].
+   Everything is written in the order of the C++ statements, because the order
+   of posts and timer operations is observable. *)
 From Coq Require Import List ZArith Bool.
-From Sim Require Import Map Variant Kernel Queue Net.
+From RecordUpdate Require Import RecordSet.
+From Sim Require Import Map Variant Kernel Queue Net Pcap SimState.
 Import ListNotations.
+Import RecordSetNotations.
 Local Open Scope Z_scope.
 
-(* trace line tags *)
-Definition TAG_H := 1.        (* handler ran:        hid args...                *)
-Definition TAG_PROBE := 2.    (* probe sink saw:     probe type size seq fromaddr fromport len digest overhead *)
-Definition TAG_DROP := 3.     (* user drop callback: id type size seq           *)
-Definition TAG_FUEL := 9.     (* the model's synchronous forwarding chain exceeded its bound *)
+(* ================= TCP ================= *)
 
-Definition logev := (Z * list Z)%type.
+(* tcp::socket::send_packet *)
+Definition tcp_send_packet (cx : ctx) (s : Z) (p : packet) (w : net) : net * list kc :=
+  let t := get_tcp w s in
+  let n := Z.of_nat (length (p_buf p)) in
+  let t := t <| t_inflight := t_inflight t + n |>
+             <| t_outst := (p_seq p, n) :: filter (fun x => negb (fst x =? p_seq p)) (t_outst t) |> in
+  let w := set_tcp w s t in
+  match t_chan t with
+  | None => (w, [KLog (TAG_FUEL, [1])])       (* null channel dereferenced *)
+  | Some ci =>
+      let c := get_chan w ci in
+      let idx := self_idx c (t_bound t) in
+      let ctr := if idx =? 0 then ch_bytes0 c else ch_bytes1 c in
+      let c' := if idx =? 0 then c <| ch_bytes0 := (ctr + n) mod 4294967296 |>
+                else c <| ch_bytes1 := (ctr + n) mod 4294967296 |> in
+      let w := set_chan w ci c' in
+      let dst := chan_ep c (remote_idx c (t_bound t)) in
+      let w := log_cap w {| c_tcp := true; c_now := cnow cx; c_src := a_val (e_addr (t_bound t));
+                            c_dst := a_val (e_addr dst); c_sport := e_port (p_from p);
+                            c_dport := e_port dst; c_seq := ctr; c_payload := p_buf p |} in
+      cfwd cx {| p_type := p_type p; p_ec := p_ec p; p_buf := p_buf p; p_from := p_from p;
+                 p_overhead := p_overhead p; p_hops := p_hops p; p_chan := p_chan p; p_seq := p_seq p;
+                 p_bytectr := ctr; p_drop := p_drop p |} w
+  end.
 
-Inductive objref := OTcp (id : Z) | OAcc (id : Z) | OUdp (id : Z).
+(* abort_recv_handlers / abort_send_handlers *)
+Definition tcp_abort_recv (s : Z) (w : net) : net * list kc :=
+  let t := get_tcp w s in
+  let c := post_h (t_recv_h t) [EC_ABORTED; 0; 0; 0] ++ post_h (t_wait_recv_h t) [EC_ABORTED] in
+  (set_tcp w s (t <| t_recv_h := None |> <| t_wait_recv_h := None |> <| t_recv_buf := [] |>
+                  <| t_recv_null := false |>), c).
 
-Inductive sink :=
-| SNone
-| SQueue (q : qstate packet)
-| SNat (ext : addr)
-| SProbe
-| SLossy (verdicts : list Z)            (* per droppable packet: 0 = pass, 1 = drop; pass when exhausted *)
-| SFwd (target : option objref).
+Definition tcp_abort_send (s : Z) (w : net) : net * list kc :=
+  let t := get_tcp w s in
+  let c := post_h (t_send_h t) [EC_ABORTED; 0] in
+  (set_tcp w s (t <| t_send_h := None |> <| t_send_buf := [] |>), c).
 
-Inductive task :=
-| TUser (hid : Z) (args : list Z)
-| TQueue (s : Z) (k : qkind).
+(* tcp::socket::cancel *)
+Definition tcp_cancel (s : Z) (w : net) : net * list kc :=
+  let (w, c1) := tcp_abort_recv s w in
+  let (w, c2) := tcp_abort_send s w in
+  let t := get_tcp w s in
+  let c3 := post_h (t_connect_h t) [EC_ABORTED] in
+  (set_tcp w s (t <| t_connect_h := None |>), c1 ++ c2 ++ c3).
 
-Definition kc := kcall task logev.
+(* tcp::socket::close(ec) *)
+Definition tcp_close (cx : ctx) (s : Z) (w : net) : net * list kc :=
+  let t := get_tcp w s in
+  let '(w, c0) :=
+    match t_chan t with
+    | Some ci =>
+        let c := get_chan w ci in
+        let hops := chan_hops c (remote_idx c (t_bound t)) in
+        let '(w, c0) :=
+          match hops, t_connect_h t with
+          | _ :: _, None =>
+              let p := mk_packet PError EC_EOF [] (t_bound t) 40 hops None (t_next_out t) None in
+              let w := set_tcp w s (t <| t_next_out := t_next_out t + 1 |>) in
+              tcp_send_packet cx s p w
+          | _, _ => (w, [])
+          end in
+        (set_tcp w s (get_tcp w s <| t_chan := None |>), c0)
+    | None => (w, [])
+    end in
+  let t := get_tcp w s in
+  let w := if ep_eqb (t_bound t) ep_none then w else unbind_tcp w s (t_bound t) in
+  let w := reset_fwd w (t_fwd t) in
+  let t := t <| t_bound := ep_none |> <| t_open := false |> <| t_fwd := None |>
+             <| t_qsize := 0 |> <| t_mss := 1475 |> <| t_cwnd := 2950 |> <| t_inflight := 0 |>
+             <| t_outst := [] |> <| t_recv_null := false |> <| t_next_in := 0 |> <| t_next_out := 0 |>
+             <| t_last_drop := 0 |> in
+  let t := if d6_close_clears (cv cx) then t <| t_inq := [] |> <| t_reorder := [] |> <| t_outgoing := [] |> else t in
+  let (w, c1) := tcp_cancel s (set_tcp w s t) in
+  (w, c0 ++ c1).
 
-(* script-level operations *)
-Inductive uop :=
-| UPost (h : Z)
-| UExpiresAt (i : Z) (e : Z)
-| UExpiresAfter (i : Z) (d : Z)
-| UAsyncWait (i : Z) (h : Z)
-| UCancel (i : Z)
-| UDestroy (i : Z)
-| UStop
-| UInject (p : packet).                  (* sim::forward_packet(p) *)
+(* tcp::socket::open *)
+Definition tcp_open (cx : ctx) (s : Z) (v4 : bool) (w : net) : net * list kc :=
+  let (w, c) := tcp_close cx s w in
+  let (f, w) := new_fwd w (OTcp s) in
+  (set_tcp w s (get_tcp w s <| t_open := true |> <| t_is_v4 := v4 |> <| t_fwd := Some f |>), c).
 
-Record net := {
-  w_sinks : zmap sink;
-  w_handlers : zmap (list uop)
-}.
+(* tcp::socket::bind: error code *)
+Definition tcp_bind (s : Z) (e : endpoint) (w : net) : Z * net :=
+  let t := get_tcp w s in
+  if negb (t_open t) then (EC_BAD_DESCRIPTOR, w)
+  else if negb (Bool.eqb (negb (a_v6 (e_addr e))) (t_is_v4 t)) then (EC_AF_NOT_SUPPORTED, w)
+  else
+    let '(err, bound, w) := bind_tcp_reg w s (t_node t) e in
+    if err =? EC_OK then (EC_OK, set_tcp w s (get_tcp w s <| t_bound := bound |>)) else (err, w).
 
-Definition set_sink (w : net) (i : Z) (s : sink) : net :=
-  {| w_sinks := mset (w_sinks w) i s; w_handlers := w_handlers w |}.
+(* socket_base::get_incoming_route / get_outgoing_route *)
+Definition tcp_in_route (w : net) (t : tcp) : list Z :=
+  assoc_addr (w_in w) (e_addr (t_bound t)) ++ match t_fwd t with Some f => [f] | None => [] end.
+Definition tcp_out_route (w : net) (t : tcp) : list Z := assoc_addr (w_out w) (e_addr (t_bound t)).
 
-(* timer identifiers: user timers and component-owned timers live in one space *)
-Definition tid_user (i : Z) : Z := 8 * i.
-Definition tid_queue (s : Z) : Z := 8 * s + 1.
+(* read_some_impl: copy up to [cap] bytes out of the queue, stopping at an error packet *)
+Fixpoint read_loop (q : list packet) (cap : Z) (acc : list Z) : list Z * list packet :=
+  match q with
+  | [] => (acc, [])
+  | p :: r =>
+      match p_type p with
+      | PError => (acc, q)
+      | _ =>
+          let n := Z.of_nat (length (p_buf p)) in
+          if n <=? cap then
+            if n =? cap then (acc ++ p_buf p, r) else read_loop r (cap - n) (acc ++ p_buf p)
+          else
+            let k := Z.to_nat cap in
+            (acc ++ firstn k (p_buf p), set_buf p (skipn k (p_buf p)) :: r)
+      end
+  end.
 
-Definition qser := ser_double.
-Definition qinc := q_incoming packet pkt_size pkt_droppable qser.
-Definition qtask := q_task packet pkt_size qser.
+(* (error, bytes, state) *)
+Definition tcp_read_some (s : Z) (bufs : list Z) (w : net) : Z * list Z * net :=
+  let t := get_tcp w s in
+  if negb (t_open t) then (EC_BAD_DESCRIPTOR, [], w)
+  else match t_chan t with
+  | None => (EC_NOT_CONNECTED, [], w)
+  | Some _ =>
+      match t_connect_h t with
+      | Some _ => (EC_WOULD_BLOCK, [], w)
+      | None =>
+          match t_inq t with
+          | [] => (EC_WOULD_BLOCK, [], w)
+          | p :: r =>
+              let t := t <| t_recv_buf := bufs |> in
+              match p_type p with
+              | PError => (p_ec p, [], set_tcp w s (t <| t_inq := r |> <| t_chan := None |>))
+              | _ =>
+                  let (data, q') := read_loop (t_inq t) (sumz bufs) [] in
+                  (EC_OK, data,
+                   set_tcp w s (t <| t_inq := q' |> <| t_qsize := t_qsize t - Z.of_nat (length data) |>))
+              end
+          end
+      end
+  end.
 
-Definition ec_code (e : ec) : Z := match e with Success => 0 | Aborted => 1 end.
+Definition read_args (e : Z) (data : list Z) : list Z :=
+  [e; Z.of_nat (length data); Z.of_nat (length data); digest data].
 
-Definition probe_line (s : Z) (p : packet) : logev :=
-  (TAG_PROBE, [s; ptype_code (p_type p); pkt_size p; p_seq p;
-               (if a_v6 (e_addr (p_from p)) then 1 else 0); a_val (e_addr (p_from p)); e_port (p_from p);
-               Z.of_nat (length (p_buf p)); digest (p_buf p)]).
+(* async_read_some_impl *)
+Definition tcp_async_read_impl (s : Z) (bufs : list Z) (h : Z) (w : net) : net * list kc :=
+  let '(e, data, w) := tcp_read_some s bufs w in
+  let t := get_tcp w s in
+  if e =? EC_WOULD_BLOCK then
+    (set_tcp w s (t <| t_recv_buf := bufs |> <| t_recv_h := Some h |> <| t_recv_null := false |>), [])
+  else if negb (e =? EC_OK) then
+    (set_tcp w s (t <| t_recv_h := None |> <| t_recv_buf := [] |>), [KPost (TUser h [e; 0; 0; 0])])
+  else
+    (set_tcp w s (t <| t_recv_h := None |> <| t_recv_buf := [] |>), [KPost (TUser h (read_args EC_OK data))]).
 
-(* the packet's drop callback is invoked (it was moved out of the packet first) *)
+(* available(ec): (error, bytes) *)
+Fixpoint avail_loop (q : list packet) (acc : Z) : Z * Z :=
+  match q with
+  | [] => (EC_OK, acc)
+  | p :: r =>
+      match p_type p with
+      | PError => if 0 <? acc then (EC_OK, acc) else (p_ec p, 0)
+      | _ => avail_loop r (acc + Z.of_nat (length (p_buf p)))
+      end
+  end.
+Definition tcp_available (t : tcp) : Z * Z :=
+  if negb (t_open t) then (EC_BAD_DESCRIPTOR, 0)
+  else match t_chan t with
+       | None => (EC_NOT_CONNECTED, 0)
+       | Some _ => avail_loop (t_inq t) 0
+       end.
+
+(* async_wait_read_impl *)
+Definition tcp_wait_read_impl (s : Z) (h : Z) (w : net) : net * list kc :=
+  let t := get_tcp w s in
+  let (e, n) := tcp_available t in
+  if negb (e =? EC_OK) then
+    (set_tcp w s (t <| t_recv_h := None |> <| t_recv_buf := [] |>), [KPost (TUser h [e])])
+  else if 0 <? n then
+    (set_tcp w s (t <| t_recv_h := None |> <| t_recv_buf := [] |>), [KPost (TUser h [EC_OK])])
+  else (set_tcp w s (t <| t_wait_recv_h := Some h |> <| t_recv_null := true |>), []).
+
+Definition tcp_maybe_wakeup_reader (cx : ctx) (s : Z) (w : net) : net * list kc :=
+  let t := get_tcp w s in
+  let ready := if d7_wakeup_fixed (cv cx) then negb (Nat.eqb (length (t_inq t)) 0)
+               else Nat.eqb (length (t_inq t)) 1 in
+  match t_recv_h t, t_wait_recv_h t with
+  | None, None => (w, [])
+  | rh, wh =>
+      if negb ready then (w, [])
+      else if t_recv_null t then
+        match wh with
+        | Some h => tcp_wait_read_impl s h (set_tcp w s (t <| t_wait_recv_h := None |>))
+        | None => (w, [KLog (TAG_FUEL, [2])])     (* a moved-from handler would be stored *)
+        end
+      else
+        match rh with
+        | Some h => tcp_async_read_impl s (t_recv_buf t) h (set_tcp w s (t <| t_recv_h := None |>))
+        | None => (w, [KLog (TAG_FUEL, [3])])
+        end
+  end.
+
+(* write_some_impl: the segmentation loop.  State is re-read every round
+   because a hop may hand a segment straight back (packet_dropped). *)
+Fixpoint write_loop (cx : ctx) (fuel : nat) (s : Z) (hops : list Z) (bufs : list (list Z)) (ret : Z) (w : net)
+  : Z * net * list kc :=
+  match fuel with
+  | O => (ret, w, [KLog (TAG_FUEL, [4])])
+  | S f =>
+      match bufs with
+      | [] => (ret, w, [])
+      | [] :: rest => write_loop cx f s hops rest ret w
+      | buf :: rest =>
+          let t := get_tcp w s in
+          let k := Z.to_nat (Z.min (Z.of_nat (length buf)) (t_mss t)) in
+          let p := mk_packet PPayload 0 (firstn k buf) (t_bound t) 40 hops None (t_next_out t) (Some (DTcp s)) in
+          let w := set_tcp w s (t <| t_next_out := t_next_out t + 1 |>) in
+          let (w, c1) := tcp_send_packet cx s p w in
+          let ret := ret + Z.of_nat k in
+          let t := get_tcp w s in
+          if t_cwnd t <? t_inflight t + t_mss t then (ret, w, c1)
+          else
+            let '(r, w, c2) := write_loop cx f s hops (skipn k buf :: rest) ret w in
+            (r, w, c1 ++ c2)
+      end
+  end.
+
+(* (error, bytes, state, calls) *)
+Definition tcp_write_some (cx : ctx) (s : Z) (bufs : list (list Z)) (w : net) : Z * Z * net * list kc :=
+  let t := get_tcp w s in
+  if negb (t_open t) then (EC_BAD_DESCRIPTOR, 0, w, [])
+  else match t_chan t with
+  | None => (EC_NOT_CONNECTED, 0, w, [])
+  | Some ci =>
+      match t_connect_h t with
+      | Some _ => (EC_WOULD_BLOCK, 0, w, [])
+      | None =>
+          let c := get_chan w ci in
+          let hops := chan_hops c (remote_idx c (t_bound t)) in
+          match hops with
+          | [] => (EC_NOT_CONNECTED, 0, w, [])
+          | _ =>
+              if t_cwnd t <? t_inflight t + t_mss t then (EC_WOULD_BLOCK, 0, w, [])
+              else
+                let '(r, w, c) := write_loop cx (S (Z.to_nat (total_len bufs)) + length bufs) s hops bufs 0 w in
+                (EC_OK, r, w, c)
+          end
+      end
+  end.
+
+(* async_write_some_impl *)
+Definition tcp_async_write_impl (cx : ctx) (s : Z) (bufs : list (list Z)) (h : Z) (w : net) : net * list kc :=
+  let '(e, n, w, c) := tcp_write_some cx s bufs w in
+  let t := get_tcp w s in
+  if e =? EC_WOULD_BLOCK then (set_tcp w s (t <| t_send_h := Some h |> <| t_send_buf := bufs |>), c)
+  else if negb (e =? EC_OK) then
+    (set_tcp w s (t <| t_send_h := None |> <| t_send_buf := [] |>), c ++ [KPost (TUser h [e; 0])])
+  else (set_tcp w s (t <| t_send_h := None |> <| t_send_buf := [] |>), c ++ [KPost (TUser h [EC_OK; n])]).
+
+Definition tcp_maybe_wakeup_writer (cx : ctx) (s : Z) (w : net) : net * list kc :=
+  let t := get_tcp w s in
+  match t_send_h t with
+  | None => (w, [])
+  | Some h => tcp_async_write_impl cx s (t_send_buf t) h (set_tcp w s (t <| t_send_h := None |>))
+  end.
+
+(* tcp::socket::packet_dropped *)
+Definition tcp_packet_dropped (s : Z) (p : packet) (w : net) : net * list kc :=
+  let t := get_tcp w s in
+  match t_chan t with
+  | None => (w, [KLog (TAG_FUEL, [5])])      (* null channel dereferenced *)
+  | Some ci =>
+      let c := get_chan w ci in
+      let p' := set_hops (set_drop p None) (chan_hops c (remote_idx c (t_bound t))) in
+      let t := t <| t_outgoing := t_outgoing t ++ [p'] |> in
+      let in_cwnd := t_cwnd t / t_mss t in
+      if (0 <? t_last_drop t) && (p_seq p <? t_last_drop t + in_cwnd) then (set_tcp w s t, [])
+      else
+        let cw := t_cwnd t / 2 in
+        let cw := if cw <? t_mss t then t_mss t else cw in
+        (set_tcp w s (t <| t_cwnd := cw |> <| t_last_drop := p_seq p |>), [])
+  end.
+
+Fixpoint outst_find (l : list (Z * Z)) (q : Z) : option Z :=
+  match l with [] => None | (k, n) :: r => if k =? q then Some n else outst_find r q end.
+
+(* the resend loop of the ACK branch *)
+Fixpoint resend_loop (cx : ctx) (fuel : nat) (s : Z) (w : net) : net * list kc :=
+  match fuel with
+  | O => (w, [])
+  | S f =>
+      let t := get_tcp w s in
+      match t_outgoing t with
+      | [] => (w, [])
+      | p :: r =>
+          if t_inflight t + Z.of_nat (length (p_buf p)) <=? t_cwnd t then
+            let (w, c1) := tcp_send_packet cx s p (set_tcp w s (t <| t_outgoing := r |>)) in
+            let (w, c2) := resend_loop cx f s w in
+            (w, c1 ++ c2)
+          else (w, [])
+      end
+  end.
+
+Fixpoint reorder_take (fuel : nat) (ro : list (Z * packet)) (next : Z) (acc : list packet)
+  : list (Z * packet) * Z * list packet :=
+  match fuel with
+  | O => (ro, next, acc)
+  | S f =>
+      match find (fun x => fst x =? next) ro with
+      | Some (_, p) => reorder_take f (filter (fun x => negb (fst x =? next)) ro) (next + 1) (acc ++ [p])
+      | None => (ro, next, acc)
+      end
+  end.
+
+(* tcp::socket::incoming_packet *)
+Definition tcp_incoming (cx : ctx) (s : Z) (p : packet) (w : net) : net * list kc :=
+  let t := get_tcp w s in
+  match p_type p with
+  | PUninit | PSyn => (w, [])
+  | PAck =>
+      let blocked_before := t_cwnd t <? t_inflight t + t_mss t in
+      match outst_find (t_outst t) (p_seq p) with
+      | None => (w, [KLog (TAG_FUEL, [6])])   (* ack for an unknown segment: end() dereferenced *)
+      | Some acked =>
+          let t := t <| t_outst := filter (fun x => negb (fst x =? p_seq p)) (t_outst t) |>
+                     <| t_inflight := t_inflight t - acked |> in
+          let (w, c1) := resend_loop cx (S (length (t_outgoing t))) s (set_tcp w s t) in
+          let t := get_tcp w s in
+          let t := t <| t_cwnd := t_cwnd t + t_mss t * acked / t_cwnd t |> in
+          let w := set_tcp w s t in
+          let writeable := t_inflight t + t_mss t <=? t_cwnd t in
+          let wake := if d26_writer_wakeup (cv cx) then blocked_before && writeable
+                      else negb blocked_before && writeable in
+          if wake then let (w, c2) := tcp_maybe_wakeup_writer cx s w in (w, c1 ++ c2) else (w, c1)
+      end
+  | PSynAck =>
+      let c := post_h (t_connect_h t) [EC_OK] in
+      let (w, c2) := tcp_maybe_wakeup_writer cx s (set_tcp w s (t <| t_connect_h := None |>)) in
+      (w, c ++ c2)
+  | PError | PPayload =>
+      match t_chan t with
+      | None => (w, [KLog (TAG_FUEL, [7])])   (* null channel dereferenced *)
+      | Some ci =>
+          let c := get_chan w ci in
+          let ack := mk_packet PAck 0 [] ep_none 20 (chan_hops c (remote_idx c (t_bound t))) None (p_seq p) None in
+          let (w, c1) := cfwd cx ack w in
+          let t := get_tcp w s in
+          if negb (p_seq p =? t_next_in t) then
+            (set_tcp w s (t <| t_reorder := if existsb (fun x => fst x =? p_seq p) (t_reorder t)
+                                             then t_reorder t else t_reorder t ++ [(p_seq p, p)] |>), c1)
+          else
+            let '(ro, next, more) :=
+              reorder_take (S (length (t_reorder t))) (t_reorder t) (t_next_in t + 1) [] in
+            let t := t <| t_next_in := next |> <| t_inq := t_inq t ++ [p] ++ more |> <| t_reorder := ro |> in
+            let (w, c2) := tcp_maybe_wakeup_reader cx s (set_tcp w s t) in
+            (w, c1 ++ c2)
+      end
+  end.
+
+(* ================= acceptor ================= *)
+
+(* the abort sequence shared by cancel / async_accept / check_accept_queue *)
+Definition acc_abort_handlers (a : Z) (clear_into : bool) (w : net) : net * list kc :=
+  let t := get_tcp w a in
+  let c1 := post_h (a_h t) [EC_ABORTED] in
+  let c2 := match a_h2 t with Some h => [KPost (TAcceptAbort2 h)] | None => [] end in
+  let any := match c1 ++ c2 with [] => false | _ => true end in
+  let t := t <| a_h := None |> <| a_h2 := None |> in
+  let t := if clear_into && any then t <| a_into := None |> <| a_want_ep := false |> else t in
+  (set_tcp w a t, c1 ++ c2).
+
+(* used to attach an incoming connection: tcp::socket::internal_connect *)
+Definition tcp_internal_connect (cx : ctx) (s : Z) (bind_ep : endpoint) (ci : Z) (w : net) : net * list kc :=
+  let v4 := t_is_v4 (get_tcp w s) in
+  let (w, c) := tcp_open cx s v4 w in
+  let t := get_tcp w s in
+  let ch := get_chan w ci in
+  let w := set_chan w ci (ch <| ch_hops1 := match t_fwd t with
+                                             | Some f => replace_last (ch_hops1 ch) f
+                                             | None => ch_hops1 ch end |>) in
+  let t := t <| t_bound := bind_ep |> <| t_chan := Some ci |> in
+  let t := if d18_accept_mss (cv cx)
+           then let m := path_mtu w (e_addr bind_ep) (e_addr (ch_ep0 ch)) in t <| t_mss := m |> <| t_cwnd := 2 * m |>
+           else t in
+  (set_tcp w s t, c).
+
+Definition acc_check_queue (cx : ctx) (a : Z) (w : net) : net * list kc :=
+  let t := get_tcp w a in
+  let '(w, c0) :=
+    if t_open t then (w, [])
+    else
+      let '(w, cs) :=
+        fold_left (fun (acc : net * list kc) ci =>
+                     let (w, cs) := acc in
+                     let p := mk_packet PError EC_CONNECTION_RESET [] (t_bound t) 28
+                                        (ch_hops0 (get_chan w ci)) None 0 None in
+                     let (w, c) := cfwd cx p w in (w, cs ++ c))
+                  (a_conns t) (w, []) in
+      let w := set_tcp w a (get_tcp w a <| a_conns := [] |>) in
+      let (w, c) := acc_abort_handlers a true w in
+      (w, cs ++ c) in
+  let t := get_tcp w a in
+  match a_h t, a_h2 t with
+  | None, None => (w, c0)
+  | _, _ =>
+      match a_conns t with
+      | [] => (w, c0)
+      | ci :: rest =>
+          let ch := get_chan w ci in
+          let peer_ep := if d12_accept_visible_ep (cv cx) then ch_vis0 ch else ch_ep0 ch in
+          let want := a_want_ep t in
+          let w := set_tcp w a (t <| a_conns := rest |> <| a_want_ep := false |>) in
+          match a_into t with
+          | None => (w, c0 ++ [KLog (TAG_FUEL, [8])])   (* null m_accept_into dereferenced *)
+          | Some peer =>
+              let (w, c1) := tcp_internal_connect cx peer (t_bound t) ci w in
+              let ch := get_chan w ci in
+              let p := {| p_type := PSynAck; p_ec := 0; p_buf := []; p_from := t_bound t; p_overhead := 28;
+                          p_hops := ch_hops0 ch; p_chan := Some ci; p_seq := 0; p_bytectr := 0; p_drop := None |} in
+              let (w, c2) := cfwd cx p w in
+              let t := get_tcp w a in
+              let epargs := if want then ep_fields peer_ep else [] in
+              let c3 := match a_h t, a_h2 t with
+                        | Some h, _ => [KPost (TUser h ([EC_OK] ++ epargs))]
+                        | None, Some h => [KPost (TUser h [EC_OK; peer])]
+                        | None, None => []
+                        end in
+              let t := match a_h t with Some _ => t <| a_h := None |> | None => t <| a_h2 := None |> end in
+              (set_tcp w a (t <| a_into := None |>), c0 ++ c1 ++ c2 ++ c3)
+          end
+      end
+  end.
+
+Definition acc_incoming (cx : ctx) (a : Z) (p : packet) (w : net) : net * list kc :=
+  match p_type p, p_chan p with
+  | PSyn, Some ci =>
+      let t := get_tcp w a in
+      acc_check_queue cx a (set_tcp w a (t <| a_conns := a_conns t ++ [ci] |>))
+  | _, _ => (w, [])
+  end.
+
+(* tcp::acceptor::cancel(ec) *)
+Definition acc_cancel (a : Z) (w : net) : net * list kc := acc_abort_handlers a false w.
+
+(* tcp::acceptor::close(ec) *)
+Definition acc_close (cx : ctx) (a : Z) (w : net) : net * list kc :=
+  let w := set_tcp w a (get_tcp w a <| a_limit := -1 |>) in
+  let (w, c1) := acc_cancel a w in
+  let (w, c2) := tcp_close cx a w in
+  (w, c1 ++ c2).
+
+(* ================= UDP ================= *)
+
+Definition udp_abort_recv (s : Z) (w : net) : net * list kc :=
+  let u := get_udp w s in
+  let c := post_h (u_recv_h u) [EC_ABORTED; 0; 0; 0] ++ post_h (u_wait_recv_h u) [EC_ABORTED] in
+  (set_udp w s (u <| u_recv_h := None |> <| u_wait_recv_h := None |> <| u_recv_buf := [] |>), c).
+
+(* udp::socket::close(ec); its cancel() aborts the receive handlers *)
+Definition udp_close (cx : ctx) (s : Z) (w : net) : net * list kc :=
+  let u := get_udp w s in
+  let w := if ep_eqb (u_bound u) ep_none then w else unbind_udp w s (u_bound u) in
+  let w := reset_fwd w (u_fwd u) in
+  let u := u <| u_bound := ep_none |> <| u_open := false |> <| u_fwd := None |> in
+  let u := if d16_udp_close_clears (cv cx) then u <| u_inq := [] |> <| u_qsize := 0 |> else u in
+  udp_abort_recv s (set_udp w s u).
+
+Definition udp_open (cx : ctx) (s : Z) (v4 : bool) (w : net) : net * list kc :=
+  let (w, c) := udp_close cx s w in
+  let (f, w) := new_fwd w (OUdp s) in
+  (set_udp w s (get_udp w s <| u_open := true |> <| u_is_v4 := v4 |> <| u_fwd := Some f |>), c).
+
+Definition udp_bind (s : Z) (e : endpoint) (w : net) : Z * net :=
+  let u := get_udp w s in
+  if negb (u_open u) then (EC_BAD_DESCRIPTOR, w)
+  else if negb (Bool.eqb (negb (a_v6 (e_addr e))) (u_is_v4 u)) then (EC_AF_NOT_SUPPORTED, w)
+  else
+    let '(err, bound, w) := bind_udp_reg w s (u_node u) e in
+    if err =? EC_OK then (EC_OK, set_udp w s (get_udp w s <| u_bound := bound |>)) else (err, w).
+
+(* receive_from_impl: (error, data, sender, state) *)
+Definition udp_receive_from (cx : ctx) (s : Z) (bufs : list Z) (w : net) : Z * list Z * endpoint * net :=
+  let u := get_udp w s in
+  if negb (u_open u) then (EC_BAD_DESCRIPTOR, [], ep_none, w)
+  else if ep_eqb (u_bound u) ep_none then (EC_INVALID_ARGUMENT, [], ep_none, w)
+  else match u_inq u with
+  | [] => (EC_WOULD_BLOCK, [], ep_none, w)
+  | p :: r =>
+      let k := Z.to_nat (Z.min (Z.of_nat (length (p_buf p))) (sumz bufs)) in
+      let data := firstn k (p_buf p) in
+      let released := if d15_udp_release_whole (cv cx) then Z.of_nat (length (p_buf p)) else Z.of_nat k in
+      (EC_OK, data, p_from p, set_udp w s (u <| u_inq := r |> <| u_qsize := u_qsize u - released |>))
+  end.
+
+Definition recv_args (e : Z) (data : list Z) (want : bool) (from : endpoint) : list Z :=
+  [e; Z.of_nat (length data); Z.of_nat (length data); digest data] ++ (if want then ep_fields from else []).
+
+Definition udp_async_recv_impl (cx : ctx) (s : Z) (bufs : list Z) (want : bool) (h : Z) (w : net) : net * list kc :=
+  let '(e, data, from, w) := udp_receive_from cx s bufs w in
+  let u := get_udp w s in
+  if e =? EC_WOULD_BLOCK then
+    (set_udp w s (u <| u_recv_buf := bufs |> <| u_recv_h := Some h |> <| u_recv_sender := want |>
+                    <| u_recv_null := false |>), [])
+  else
+    let u := u <| u_recv_h := None |> <| u_recv_buf := [] |> <| u_recv_sender := false |> <| u_recv_null := false |> in
+    if negb (e =? EC_OK) then (set_udp w s u, [KPost (TUser h [e; 0; 0; 0])])
+    else (set_udp w s u, [KPost (TUser h (recv_args EC_OK data want from))]).
+
+Definition udp_wait_recv_impl (s : Z) (want : bool) (h : Z) (w : net) : net * list kc :=
+  let u := get_udp w s in
+  if negb (u_open u) then (w, [KPost (TUser h [EC_BAD_DESCRIPTOR])])
+  else if ep_eqb (u_bound u) ep_none then (w, [KPost (TUser h [EC_INVALID_ARGUMENT])])
+  else match u_inq u with
+  | _ :: _ => (w, [KPost (TUser h [EC_OK])])
+  | [] => (set_udp w s (u <| u_recv_null := true |> <| u_wait_recv_h := Some h |> <| u_recv_sender := want |>), [])
+  end.
+
+Definition udp_maybe_wakeup_reader (cx : ctx) (s : Z) (w : net) : net * list kc :=
+  let u := get_udp w s in
+  if negb (Nat.eqb (length (u_inq u)) 1) then (w, [])
+  else match u_recv_h u, u_wait_recv_h u with
+  | None, None => (w, [])
+  | rh, wh =>
+      if u_recv_null u then
+        match wh with
+        | Some h => udp_wait_recv_impl s (u_recv_sender u) h (set_udp w s (u <| u_wait_recv_h := None |>))
+        | None => (w, [KLog (TAG_FUEL, [10])])
+        end
+      else
+        match rh with
+        | Some h => udp_async_recv_impl cx s (u_recv_buf u) (u_recv_sender u) h (set_udp w s (u <| u_recv_h := None |>))
+        | None => (w, [KLog (TAG_FUEL, [11])])
+        end
+  end.
+
+Definition udp_incoming (cx : ctx) (s : Z) (p : packet) (w : net) : net * list kc :=
+  let u := get_udp w s in
+  if 262144 <? u_qsize u + pkt_size p then (w, [])
+  else
+    let u := u <| u_qsize := u_qsize u + Z.of_nat (length (p_buf p)) |> <| u_inq := u_inq u ++ [p] |> in
+    udp_maybe_wakeup_reader cx s (set_udp w s u).
+
+(* send_to_impl: (error, return value, state, calls) *)
+Definition udp_send_to (cx : ctx) (s : Z) (bufs : list (list Z)) (dst : endpoint) (w : net) : Z * Z * net * list kc :=
+  let u := get_udp w s in
+  let '(berr, w) := if ep_eqb (u_bound u) ep_none then udp_bind s ep_none w else (EC_OK, w) in
+  if negb (berr =? EC_OK) then (berr, 0, w, [])
+  else
+    let u := get_udp w s in
+    let ret := total_len bufs in
+    if ret =? 0 then (EC_INVALID_ARGUMENT, 0, w, [])
+    else
+      let mtu := path_mtu w (e_addr (u_bound u)) (e_addr dst) in
+      if 65535 <? ret then (EC_MESSAGE_SIZE, 0, w, [])
+      else if u_df u && (mtu <? ret) then (EC_OK, ret, w, [])
+      else if u_sqt u <? u_next_send u - cnow cx then (EC_WOULD_BLOCK, 0, w, [])
+      else
+        match reg_find (w_udp_reg w) dst with
+        | None => (EC_OK, ret, w, [])
+        | Some d =>
+            let du := get_udp w d in
+            let hops := assoc_addr (w_out w) (e_addr (u_bound u))
+                        ++ w_route w
+                        ++ assoc_addr (w_in w) (e_addr (u_bound du))
+                        ++ match u_fwd du with Some f => [f] | None => [] end in
+            let ns := Z.max (cnow cx) (u_next_send u) in
+            let p := mk_packet PPayload 0 (concat bufs) (u_bound u) 28 hops None 0 None in
+            let w := log_cap w {| c_tcp := false; c_now := cnow cx; c_src := a_val (e_addr (u_bound u));
+                                  c_dst := a_val (e_addr dst); c_sport := e_port (u_bound u);
+                                  c_dport := e_port dst; c_seq := 0; c_payload := concat bufs |} in
+            let w := set_udp w s (u <| u_next_send := ns |>) in
+            let (w, c) := cfwd cx p w in
+            let u := get_udp w s in
+            (EC_OK, ret, set_udp w s (u <| u_next_send := u_next_send u + 10 * pkt_size p |>), c)
+        end.
+
+(* ================= sinks ================= *)
+
+(* sink_forwarder::incoming_packet *)
+Definition deliver (cx : ctx) (tgt : option objref) (p : packet) (w : net) : net * list kc :=
+  match tgt with
+  | None => (w, [])
+  | Some (OTcp s) => if t_is_acc (get_tcp w s) then acc_incoming cx s p w else tcp_incoming cx s p w
+  | Some (OUdp s) => udp_incoming cx s p w
+  end.
+
+(* a drop callback is invoked; it was moved out of the packet first *)
 Definition run_drop (p : packet) (w : net) : net * list kc :=
   match p_drop p with
   | None => (w, [])
   | Some (DUser id) => (w, [KLog (TAG_DROP, [id; ptype_code (p_type p); pkt_size p; p_seq p])])
-  | Some (DTcp _) => (w, [])
+  | Some (DTcp s) => tcp_packet_dropped s p w
   end.
 
-Section Forward.
-  Variable v : variant.
+(* nat::incoming_packet *)
+Definition nat_rewrite (v : variant) (ext : addr) (p : packet) (w : net) : packet * net :=
+  let p' := set_from p {| e_addr := ext; e_port := e_port (p_from p) |} in
+  match p_chan p with
+  | Some ci =>
+      if d14_nat_syn_only v && negb (match p_type p with PSyn => true | _ => false end) then (p', w)
+      else
+        let c := get_chan w ci in
+        (p', set_chan w ci (c <| ch_vis0 := {| e_addr := ext; e_port := e_port (ch_vis0 c) |} |>))
+  | None => (p', w)
+  end.
 
-  (* forward_packet: hand p to its next hop.  The chain is synchronous; queues end it. *)
-  Fixpoint forward (fuel : nat) (now : Z) (p : packet) (w : net) : net * list kc :=
-    match fuel with
-    | O => let _ := v in (w, [KLog (TAG_FUEL, [])])
-    | S f =>
-        match p_hops p with
-        | [] => (w, [])                        (* "packet lost" *)
-        | h :: rest =>
-            let p' := set_hops p rest in
-            match mget SNone (w_sinks w) h with
-            | SNone => (w, [])
-            | SQueue q =>
-                let (q', outs) := qinc now p' q in
-                qouts f now h outs (set_sink w h (SQueue q'))
-            | SNat ext =>
-                forward f now (set_from p' {| e_addr := ext; e_port := e_port (p_from p') |}) w
-            | SProbe =>
-                let (w', c) := forward f now p' w in (w', KLog (probe_line h p') :: c)
-            | SLossy vs =>
-                if pkt_droppable p' then
-                  match vs with
-                  | 1 :: vs' => run_drop p' (set_sink w h (SLossy vs'))
-                  | _ :: vs' => forward f now p' (set_sink w h (SLossy vs'))
-                  | [] => forward f now p' w
-                  end
-                else forward f now p' w
-            | SFwd _ => (w, [])
-            end
-        end
-    end
-  with qouts (fuel : nat) (now : Z) (s : Z) (outs : list (qout packet)) (w : net) : net * list kc :=
-    match fuel with
-    | O => (w, [KLog (TAG_FUEL, [])])
-    | S f =>
-        match outs with
-        | [] => (w, [])
-        | o :: rest =>
-            let (w1, c1) :=
-              match o with
-              | QArm t k => (w, [KExpiresAt (tid_queue s) t; KAsyncWait (tid_queue s) (fun _ => TQueue s k)])
-              | QPost k => (w, [KPost (TQueue s k)])
-              | QForward p => forward f now p w
-              | QDrop p => run_drop p w
-              end in
-            let (w2, c2) := qouts f now s rest w1 in
-            (w2, c1 ++ c2)
-        end
-    end.
+(* forward_packet: hand p to its next hop.  The chain is synchronous; queues end it. *)
+Fixpoint forward (v : variant) (fuel : nat) (now : Z) (p : packet) (w : net) : net * list kc :=
+  match fuel with
+  | O => (w, [KLog (TAG_FUEL, [0])])
+  | S f =>
+      match p_hops p with
+      | [] => (w, [])                        (* "packet lost" *)
+      | h :: rest =>
+          let p' := set_hops p rest in
+          match mget SNone (w_sinks w) h with
+          | SNone => (w, [])
+          | SQueue q =>
+              let (q', outs) := qinc now p' q in
+              fold_left (fun (acc : net * list kc) o =>
+                           let (w, cs) := acc in
+                           let (w, c) :=
+                             match o with
+                             | QArm t k => (w, [KExpiresAt (tid_queue h) t; KAsyncWait (tid_queue h) (fun _ => TQueue h k)])
+                             | QPost k => (w, [KPost (TQueue h k)])
+                             | QForward x => forward v f now x w
+                             | QDrop x => run_drop x w
+                             end in
+                           (w, cs ++ c))
+                        outs (set_sink w h (SQueue q'), [])
+          | SNat ext => let (p'', w) := nat_rewrite v ext p' w in forward v f now p'' w
+          | SProbe => let (w', c) := forward v f now p' w in (w', KLog (probe_line h p') :: c)
+          | SLossy vs =>
+              if pkt_droppable p' then
+                match vs with
+                | 1 :: vs' => run_drop p' (set_sink w h (SLossy vs'))
+                | _ :: vs' => forward v f now p' (set_sink w h (SLossy vs'))
+                | [] => forward v f now p' w
+                end
+              else forward v f now p' w
+          | SFwd tgt => deliver (mkCtx v now (forward v f now)) tgt p' w
+          end
+      end
+  end.
 
-  Definition FWD_FUEL : nat := 64.
+Definition FWD_FUEL : nat := 64.
+Definition mkcx (v : variant) (now : Z) : ctx := mkCtx v now (forward v FWD_FUEL now).
 
-  Definition do_uop (now : Z) (o : uop) (w : net) : net * list kc :=
-    match o with
-    | UPost h => (w, [KPost (TUser h [])])
-    | UExpiresAt i e => (w, [KExpiresAt (tid_user i) e])
-    | UExpiresAfter i d => (w, [KExpiresAfter (tid_user i) d])
-    | UAsyncWait i h => (w, [KAsyncWait (tid_user i) (fun e => TUser h [ec_code e])])
-    | UCancel i => (w, [KCancel (tid_user i)])
-    | UDestroy i => (w, [KDestroy (tid_user i)])
-    | UStop => (w, [KStop])
-    | UInject p => forward FWD_FUEL now p w
-    end.
+(* the outputs of a queue task (timer / post) *)
+Definition queue_task (v : variant) (now : Z) (s : Z) (k : qkind) (w : net) : net * list kc :=
+  match mget SNone (w_sinks w) s with
+  | SQueue q =>
+      let (q', outs) := qtask k now q in
+      fold_left (fun (acc : net * list kc) o =>
+                   let (w, cs) := acc in
+                   let (w, c) :=
+                     match o with
+                     | QArm t k' => (w, [KExpiresAt (tid_queue s) t; KAsyncWait (tid_queue s) (fun _ => TQueue s k')])
+                     | QPost k' => (w, [KPost (TQueue s k')])
+                     | QForward x => forward v FWD_FUEL now x w
+                     | QDrop x => run_drop x w
+                     end in
+                   (w, cs ++ c))
+                outs (set_sink w s (SQueue q'), [])
+  | _ => (w, [])
+  end.
 
-  Fixpoint do_uops (now : Z) (os : list uop) (w : net) : net * list kc :=
-    match os with
-    | [] => (w, [])
-    | o :: r =>
-        let (w1, c1) := do_uop now o w in
-        let (w2, c2) := do_uops now r w1 in
-        (w2, c1 ++ c2)
-    end.
+(* ================= connection set-up ================= *)
 
-  Definition sim_exec (t : task) (now : Z) (w : net) : net * list kc :=
-    match t with
-    | TUser h args =>
-        let (w', c) := do_uops now (mget [] (w_handlers w) h) w in
-        (w', KLog (TAG_H, h :: args) :: c)
-    | TQueue s k =>
-        match mget SNone (w_sinks w) s with
-        | SQueue q =>
-            let (q', outs) := qtask k now q in
-            qouts FWD_FUEL now s outs (set_sink w s (SQueue q'))
-        | _ => (w, [])
-        end
-    end.
-End Forward.
+(* simulation::internal_connect: (error, channel, state, calls) *)
+Definition sim_internal_connect (cx : ctx) (s : Z) (target : endpoint) (w : net) : Z * option Z * net * list kc :=
+  match reg_find (w_tcp_reg w) target with
+  | None => (EC_REFUSED, None, w, [])
+  | Some r =>
+      let rt := get_tcp w r in
+      if negb (t_is_acc rt && (0 <? a_limit rt)) then (EC_REFUSED, None, w, [])
+      else
+        let t := get_tcp w s in
+        let from := t_bound t in
+        let net_route := w_route w in
+        let ci := w_next_chan w in
+        let c := {| ch_hops0 := tcp_out_route w rt ++ net_route ++ tcp_in_route w t;
+                    ch_hops1 := tcp_out_route w t ++ net_route ++ tcp_in_route w rt;
+                    ch_ep0 := from; ch_ep1 := t_bound rt; ch_vis0 := from; ch_vis1 := t_bound rt;
+                    ch_bytes0 := 0; ch_bytes1 := 0 |} in
+        let w := set_chan (w <| w_next_chan := ci + 1 |>) ci c in
+        let p := {| p_type := PSyn; p_ec := 0; p_buf := []; p_from := from; p_overhead := 28;
+                    p_hops := ch_hops1 c; p_chan := Some ci; p_seq := 0; p_bytectr := 0; p_drop := None |} in
+        let (w, cs) := cfwd cx p w in
+        (EC_OK, Some ci, w, cs)
+  end.
+
+(* tcp::socket::async_connect *)
+Definition tcp_async_connect (cx : ctx) (s : Z) (target : endpoint) (h : Z) (w : net) : net * list kc :=
+  let v4t := negb (a_v6 (e_addr target)) in
+  let '(w, c0) := if t_open (get_tcp w s) then (w, []) else tcp_open cx s v4t w in
+  let t := get_tcp w s in
+  let '(berr, w) :=
+    if addr_eqb (e_addr (t_bound t)) addr_any4 then
+      let '(err, bound, w) :=
+        bind_tcp_reg w s (t_node t) {| e_addr := if v4t then addr_any4 else addr_any6; e_port := 0 |} in
+      if err =? EC_OK then (EC_OK, set_tcp w s (get_tcp w s <| t_bound := bound |>)) else (err, w)
+    else (EC_OK, w) in
+  if negb (berr =? EC_OK) then (w, c0 ++ [KPost (TUser h [berr])])
+  else
+    let t := get_tcp w s in
+    if negb (Bool.eqb (negb (a_v6 (e_addr (t_bound t)))) v4t) then (w, c0 ++ [KPost (TUser h [EC_AF_NOT_SUPPORTED])])
+    else
+      let '(err, ci, w, c1) := sim_internal_connect cx s target w in
+      let t := get_tcp w s in
+      let m := path_mtu w (e_addr (t_bound t)) (e_addr target) in
+      let t := t <| t_chan := ci |> <| t_mss := m |> <| t_cwnd := 2 * m |> in
+      if negb (err =? EC_OK) then
+        (set_tcp w s (t <| t_chan := None |>),
+         c0 ++ c1 ++ [KExpiresAfter (tid_connect s) 50000000;
+                      KAsyncWait (tid_connect s) (fun _ => TUser h [err])])
+      else (set_tcp w s (t <| t_connect_h := Some h |>), c0 ++ c1).
+
+(* ================= resolver ================= *)
+
+Definition rslv_arm (r : Z) (q : list lookup) : list kc :=
+  match q with
+  | [] => []
+  | l :: _ => [KExpiresAt (tid_rslv r) (l_time l); KAsyncWait (tid_rslv r) (fun e => TResolve r e)]
+  end.
+
+(* basic_resolver::async_resolve *)
+Definition rslv_resolve (cx : ctx) (r : Z) (n : rname) (port : Z) (h : Z) (w : net) : net * list kc :=
+  let x := get_rslv w r in
+  let q := r_queue x in
+  match n with
+  | RLit a =>
+      let l := {| l_time := cnow cx + 1000; l_ec := EC_OK; l_eps := [{| e_addr := a; e_port := port |}]; l_h := h |} in
+      let q' := l :: q in
+      (set_rslv w r {| r_node := r_node x; r_queue := q' |}, rslv_arm r q')
+  | RHost id =>
+      let start := match q with
+                   | [] => cnow cx
+                   | f :: _ => if d17_resolver_back (cv cx) then l_time (last q f) else l_time f
+                   end in
+      let he := mget (mkHost 100000000 EC_HOST_NOT_FOUND []) (w_hosts w) id in
+      let l := {| l_time := start + h_lat he; l_ec := h_ec he;
+                  l_eps := map (fun a => {| e_addr := a; e_port := port |}) (h_addrs he); l_h := h |} in
+      let q' := q ++ [l] in
+      (set_rslv w r {| r_node := r_node x; r_queue := q' |}, rslv_arm r q')
+  end.
+
+Definition lookup_args (l : lookup) (e : Z) : list Z :=
+  [e; Z.of_nat (length (l_eps l))] ++ flat_map ep_fields (l_eps l).
+
+(* basic_resolver::on_lookup, first half: pop the head; the completion handler is
+   then invoked INLINE, and afterwards the timer is re-armed for the (then)
+   front of the queue iff the queue was non-empty before the handler ran *)
+Definition rslv_on_lookup (r : Z) (e : ec) (w : net) : net * option (Z * list Z * bool) :=
+  match e with
+  | Aborted => (w, None)
+  | Success =>
+      let x := get_rslv w r in
+      match r_queue x with
+      | [] => (w, None)
+      | l :: rest =>
+          (set_rslv w r {| r_node := r_node x; r_queue := rest |},
+           Some (l_h l, lookup_args l (l_ec l), match rest with [] => false | _ => true end))
+      end
+  end.
+
+Definition rslv_rearm (r : Z) (w : net) : list kc :=
+  match r_queue (get_rslv w r) with
+  | [] => [KLog (TAG_FUEL, [12])]     (* front() of a queue the handler emptied *)
+  | q => rslv_arm r q
+  end.
+
+(* basic_resolver::cancel *)
+Definition rslv_cancel (r : Z) (w : net) : net * list kc :=
+  let x := get_rslv w r in
+  (set_rslv w r {| r_node := r_node x; r_queue := [] |},
+   map (fun l => KPost (TUser (l_h l) (lookup_args l EC_ABORTED))) (r_queue x)).
+
+(* ================= the script interpreter ================= *)
+
+Definition ret_line (code obj : Z) (vals : list Z) : kc := KLog (TAG_RET, code :: obj :: vals).
+
+Definition do_uop (v : variant) (now : Z) (o : uop) (w : net) : net * list kc :=
+  let cx := mkcx v now in
+  match o with
+  | UPost h => (w, [KPost (TUser h [])])
+  | UExpiresAt i e => (w, [KExpiresAt (tid_user i) e])
+  | UExpiresAfter i d => (w, [KExpiresAfter (tid_user i) d])
+  | UAsyncWait i h => (w, [KAsyncWait (tid_user i) (fun e => TUser h [ec_code e])])
+  | UCancel i => (w, [KCancel (tid_user i)])
+  | UDestroy i => (w, [KDestroy (tid_user i)])
+  | UStop => (w, [KStop])
+  | UInject p => cfwd cx p w
+  (* ---- udp ---- *)
+  | UUdpNew s node => (set_udp w s (udp_fresh node now), [])
+  | UUdpOpen s v4 => udp_open cx s v4 w
+  | UUdpBind s e => let (err, w) := udp_bind s e w in (w, [ret_line 1 s [err]])
+  | UUdpClose s => udp_close cx s w
+  | UUdpCancel s => udp_abort_recv s w
+  | UUdpDestroy s => let (w, c) := udp_close cx s w in (set_udp w s (udp_fresh (u_node (get_udp w s)) now), c)
+  | UUdpSendTo s bufs dst =>
+      let '(err, n, w, c) := udp_send_to cx s bufs dst w in (w, c ++ [ret_line 2 s [err; n]])
+  | UUdpRecvFrom s bufs =>
+      let (w, c0) := udp_abort_recv s w in
+      let '(err, data, from, w) := udp_receive_from cx s bufs w in
+      (w, c0 ++ [ret_line 3 s (recv_args err data (err =? EC_OK) from)])
+  | UUdpAsyncRecv s bufs want h =>
+      let (w, c0) := udp_abort_recv s w in
+      let (w, c1) := udp_async_recv_impl cx s bufs want h w in (w, c0 ++ c1)
+  | UUdpWaitRead s h =>
+      let (w, c0) := udp_abort_recv s w in
+      let (w, c1) := udp_wait_recv_impl s false h w in (w, c0 ++ c1)
+  | UUdpSetDF s b => (set_udp w s (get_udp w s <| u_df := b |>), [])
+  | UUdpLocalEp s =>
+      let u := get_udp w s in
+      (w, [ret_line 4 s (if u_open u then EC_OK :: ep_fields (u_bound u) else [EC_BAD_DESCRIPTOR; 0; 0; 0])])
+  (* ---- tcp ---- *)
+  | UTcpNew s node => (set_tcp w s (tcp_fresh node false), [])
+  | UAccNew s node => (set_tcp w s (tcp_fresh node true), [])
+  | UTcpOpen s v4 => tcp_open cx s v4 w
+  | UTcpBind s e => let (err, w) := tcp_bind s e w in (w, [ret_line 5 s [err]])
+  | UTcpClose s => if t_is_acc (get_tcp w s) then acc_close cx s w else tcp_close cx s w
+  | UTcpCancel s => if t_is_acc (get_tcp w s) then acc_cancel s w else tcp_cancel s w
+  | UTcpDestroy s =>
+      let t := get_tcp w s in
+      if t_is_acc t then
+        let (w, c) := acc_close cx s w in (set_tcp w s (tcp_fresh (t_node t) true), c)
+      else
+        (* ~socket: drop the channel without telling the peer, unbind, detach, cancel *)
+        let w := set_tcp w s (t <| t_chan := None |>) in
+        let w := if ep_eqb (t_bound t) ep_none then w else unbind_tcp w s (t_bound t) in
+        let w := reset_fwd w (t_fwd t) in
+        let (w, c) := tcp_cancel s w in
+        (set_tcp w s (tcp_fresh (t_node t) false), c ++ [KDestroy (tid_connect s)])
+  | UTcpConnect s e h => tcp_async_connect cx s e h w
+  | UTcpWrite s bufs h =>
+      let (w, c0) := tcp_abort_send s w in
+      let (w, c1) := tcp_async_write_impl cx s bufs h w in (w, c0 ++ c1)
+  | UTcpRead s bufs h =>
+      let (w, c0) := tcp_abort_recv s w in
+      let (w, c1) := tcp_async_read_impl s bufs h w in (w, c0 ++ c1)
+  | UTcpReadSome s bufs =>
+      let '(err, data, w) := tcp_read_some s bufs w in (w, [ret_line 6 s (read_args err data)])
+  | UTcpWaitRead s h =>
+      let (w, c0) := tcp_abort_recv s w in
+      let (w, c1) := tcp_wait_read_impl s h w in (w, c0 ++ c1)
+  | UTcpAvailable s => let (e, n) := tcp_available (get_tcp w s) in (w, [ret_line 7 s [e; n]])
+  | UTcpLocalEp s =>
+      let t := get_tcp w s in
+      (w, [ret_line 8 s (if t_open t then EC_OK :: ep_fields (t_bound t) else [EC_BAD_DESCRIPTOR; 0; 0; 0])])
+  | UTcpRemoteEp s =>
+      let t := get_tcp w s in
+      (w, [ret_line 9 s
+             (if negb (t_open t) then [EC_BAD_DESCRIPTOR; 0; 0; 0]
+              else match t_chan t with
+                   | None => [EC_NOT_CONNECTED; 0; 0; 0]
+                   | Some ci => let c := get_chan w ci in EC_OK :: ep_fields (chan_vis c (remote_idx c (t_bound t)))
+                   end)])
+  | UAccListen s n =>
+      let t := get_tcp w s in
+      let n := if n =? -1 then 20 else n in
+      if negb (t_open t) then (w, [ret_line 10 s [EC_BAD_DESCRIPTOR]])
+      else if ep_eqb (t_bound t) ep_none then (w, [ret_line 10 s [EC_INVALID_ARGUMENT]])
+      else (set_tcp w s (t <| a_limit := n |>), [ret_line 10 s [EC_OK]])
+  | UAccAccept a peer want h =>
+      let '(w, c0) := if t_open (get_tcp w peer) then tcp_close cx peer w else (w, []) in
+      let (w, c1) := acc_abort_handlers a (negb want) w in
+      let t := get_tcp w a in
+      let w := set_tcp w a (t <| a_h := Some h |> <| a_into := Some peer |> <| a_want_ep := want |>) in
+      let (w, c2) := acc_check_queue cx a w in
+      (w, c0 ++ c1 ++ c2)
+  | UAccAccept2 a dst h =>
+      let w := set_tcp w a (get_tcp w a <| a_want_ep := false |>) in
+      let (w, c1) := acc_abort_handlers a true w in
+      let w := set_tcp w dst (tcp_fresh (t_node (get_tcp w a)) false) in
+      let t := get_tcp w a in
+      let w := set_tcp w a (t <| a_h2 := Some h |> <| a_into := Some dst |>) in
+      let (w, c2) := acc_check_queue cx a w in
+      (w, c1 ++ c2)
+  | UAccClose0 a =>
+      if d13_acceptor_close v then acc_close cx a w else acc_abort_handlers a false w
+  (* ---- resolver ---- *)
+  | URslvNew r node => (set_rslv w r (mkRslv node []), [])
+  | UResolve r n port h => rslv_resolve cx r n port h w
+  | URslvCancel r => rslv_cancel r w
+  | UPcapOn => (w <| w_pcap := Some [] |>, [])
+  end.
+
+Fixpoint do_uops (v : variant) (now : Z) (os : list uop) (w : net) : net * list kc :=
+  match os with
+  | [] => (w, [])
+  | o :: r =>
+      let (w1, c1) := do_uop v now o w in
+      let (w2, c2) := do_uops v now r w1 in
+      (w2, c1 ++ c2)
+  end.
+
+Definition run_user (v : variant) (now : Z) (h : Z) (args : list Z) (w : net) : net * list kc :=
+  let (w', c) := do_uops v now (mget [] (w_handlers w) h) w in
+  (w', KLog (TAG_H, h :: args) :: c).
+
+Definition sim_exec (v : variant) (t : task) (now : Z) (w : net) : net * list kc :=
+  match t with
+  | TUser h args => run_user v now h args w
+  | TQueue s k => queue_task v now s k w
+  | TResolve r e =>
+      let (w, call) := rslv_on_lookup r e w in
+      match call with
+      | Some (h, args, more) =>
+          let (w, c) := run_user v now h args w in
+          (w, c ++ (if more then rslv_rearm r w else []))
+      | None => (w, [])
+      end
+  | TAcceptAbort2 h => run_user v now h [EC_ABORTED; -1] w
+  end.
 
 (* scripts *)
 Inductive mcmd := CmdOps (os : list uop) | CmdRun | CmdRestart.
 
 Record script := {
-  sc_sinks : list (Z * sink);
-  sc_handlers : zmap (list uop);
+  sc_net : net;
   sc_main : list mcmd
 }.
 
@@ -185,8 +948,13 @@ Definition main_step (v : variant) (fuel pfuel : nat) (s : sim_state) (c : mcmd)
   end.
 
 Definition run_script (v : variant) (fuel pfuel : nat) (p : script) : sim_state :=
-  fold_left (main_step v fuel pfuel) (sc_main p)
-            (init _ _ _ {| w_sinks := sc_sinks p; w_handlers := sc_handlers p |}).
+  fold_left (main_step v fuel pfuel) (sc_main p) (init _ _ _ (sc_net p)).
+
+Definition net0 : net :=
+  {| w_sinks := []; w_next_sink := 1000000; w_handlers := []; w_nodes := []; w_in := []; w_out := [];
+     w_route := []; w_mtu := 1475; w_mtus := []; w_hosts := []; w_tcp_reg := []; w_udp_reg := [];
+     w_next_port := 2000; w_tcps := []; w_udps := []; w_chans := []; w_next_chan := 0; w_rslv := [];
+     w_pcap := None |}.
 
 (* visible trace *)
 Inductive vline := VLog (now : Z) (tag : Z) (fields : list Z) | VRet (now i n : Z) | VRun (now ret : Z) | VOutOfFuel.
@@ -201,3 +969,6 @@ Definition svis_of (e : kevent task logev) : list vline :=
   end.
 
 Definition svisible (s : sim_state) : list vline := rev (flat_map svis_of (trace _ _ _ s)).
+
+Definition pcap_bytes (s : sim_state) : option (list Z) :=
+  match w_pcap (world _ _ _ s) with Some l => Some (encode_file (rev l)) | None => None end.
